@@ -28,6 +28,12 @@ class PreErr(Exception):
         self.code = code
 
 
+class SubmitErr(Exception):
+    def __init__(self, code):
+        super().__init__(code)
+        self.code = code
+
+
 class SrcErr(Exception):
     def __init__(self, code):
         super().__init__(code)
@@ -51,7 +57,13 @@ def gen_case(rng):
             pre_fail[i] = rng.randrange(10, 14)
         elif rng.random() < 0.15:
             call_fail[i] = rng.randrange(20, 24)
-    return {'conc': conc, 'src': src, 'has_pre': has_pre, 'pre_fail': pre_fail, 'call_fail': call_fail,
+    submit_fail = {}
+    if n and rng.random() < 0.25:
+        # the submitting function itself raises for one element (e.g. executor shut down, ServerBacklogFull)
+        cand = [i for i in range(n) if i not in pre_fail]
+        if cand:
+            submit_fail[rng.choice(cand)] = rng.randrange(30, 34)
+    return {'conc': conc, 'src': src, 'has_pre': has_pre, 'pre_fail': pre_fail, 'call_fail': call_fail, 'submit_fail': submit_fail,
             'return_x': rng.random() < 0.4, 'return_exc': rng.random() < 0.5,
             'stop_after': rng.choice([None, None, None, 1, 2, 4]),
             'dur': {i: rng.choice([0, 0, 1, 2, 5]) for i in range(n)}}
@@ -150,10 +162,32 @@ def run_variants(c):
     kw = dict(return_x=c['return_x'], return_exceptions=c['return_exc'])
     pkw = dict(kw, preprocessor=pre) if pre else kw
     res = {}
+    submit_fail = {int(k): v for k, v in c.get('submit_fail', {}).items()}
+
+    def check_submit(xx):
+        x = xx - PRE_OFFSET if c['has_pre'] else xx
+        if x in submit_fail:
+            raise SubmitErr(submit_fail[x])
+
     # V1: sync fifo_stream over a real thread pool
     with ThreadPoolExecutor(c['conc']) as pool:
-        it = _streamer.fifo_stream(source(), lambda xx: pool.submit(sync_fn, xx), capacity=2 * c['conc'], **pkw)
+        def submit(xx):
+            check_submit(xx)
+            return pool.submit(sync_fn, xx)
+        it = _streamer.fifo_stream(source(), submit, capacity=2 * c['conc'], **pkw)
         res['fifo_stream'] = consume_sync(it, c)
+    if submit_fail:
+        # only the two variants that take a submitting function can fail at submission
+        async def amain1():
+            loop = asyncio.get_running_loop()
+
+            async def func(xx):
+                check_submit(xx)
+                return loop.create_task(async_fn(xx))
+            ait = _streamer.async_fifo_stream(asource(), func, capacity=2 * c['conc'], **pkw)
+            return await consume_async(ait, c)
+        res['async_fifo_stream'] = asyncio.run(amain1())
+        return {k: [v[0], v[1]] for k, v in res.items()}
     # V2: Parmapper (threads)
     it = iter(_streamer.Parmapper(source(), sync_fn, executor='thread', concurrency=c['conc'], **pkw))
     res['Parmapper'] = consume_sync(it, c)
@@ -297,6 +331,10 @@ def coq_case(r):
     c = r['cfg']
     pf = clist(sorted((int(k), v) for k, v in c['pre_fail'].items()), lambda kv: f'({cz(kv[0])}, {cz(kv[1])})')
     cf = clist(sorted((int(k), v) for k, v in c['call_fail'].items()), lambda kv: f'({cz(kv[0])}, {cz(kv[1])})')
+    if c.get('submit_fail'):
+        # for the consumer a failing submission of element i is a source that raises at position i
+        sf = {int(k): v for k, v in c['submit_fail'].items()}
+        c = dict(c, src=[['e', sf[v]] if k == 'd' and v in sf else [k, v] for k, v in c['src']])
     vs = [v for k, v in sorted(r['obs']['variants'].items()) if not k.endswith('.call')]
     obs = clist(vs, lambda v: f'({clist(v[0], cz)}, {cz(v[1])})')
     return (f"({cnat(c['conc'])}, {coq_src(c['src'])}, {cbool(c['has_pre'])}, {pf}, {cf}, "
@@ -341,11 +379,12 @@ def check(tier, seed, replay=None):
         cov['correspondence_mismatches'] = len(bad)
         cov['variants_per_case'] = sorted({k for r in rs for k in r['obs']['variants']})
         cov['cases_with_preprocessor_rejection'] = sum(1 for r in rs if r['cfg']['pre_fail'])
+        cov['cases_with_failing_submission'] = sum(1 for r in rs if r['cfg'].get('submit_fail'))
         cov['server_cases'] = sum(1 for r in rs if r['cfg'].get('server'))
 
     return core.generic_check(
         PROP, tier, seed, [part], TRUSTED, ASSUME,
-        rule='random tables (0-12 inputs, source failure, preprocessor rejections, worker failures, return_x, return_exceptions, stop '
+        rule='random tables (0-12 inputs, source failure, preprocessor rejections, worker failures, a submitting function that raises for one element (fifo_stream / async_fifo_stream only), return_x, return_exceptions, stop '
              'position, concurrency 1-3, per-call durations 0-10 ms) run through fifo_stream, Parmapper, ParmapperAsync, async_fifo_stream, '
              'AsyncParmapperAsync and AsyncParmapper, plus sampled Server.stream/call vs AsyncServer.stream/call over a ThreadServlet; all '
              'variants must agree with each other (oracle) and with the sequential reference evaluated in Coq. non-trivial = >= 3 inputs and '
